@@ -1,15 +1,24 @@
 use crate::common::*;
 use crate::pres::*;
-use credx::statement::*;
 pub fn run() {
-    let mut rng = Rng::new(5);
-    let mix = Mix { n_creds: 2, n_claims: 4, disclosed: vec![vec![], vec![]], equality: true, commitment: Some(1), verenc: Some((1, false)), membership: true, age: 40, ..Default::default() };
-    let scn = Scn::<Bbs>::build(&mut rng, &mix);
-    let p = scn.create().ok().unwrap();
-    println!("honest: {}", scn.verify(&p).class());
-    let stmts: Vec<Statements<Bbs>> = scn.schema.statements.values().map(|s| match s {
-        Statements::Commitment(c) => { let mut t = (**c).clone(); t.reference_id = "sig1".into(); t.into() }
-        o => o.clone() }).collect();
-    let s2 = credx::presentation::PresentationSchema::new_with_id(&stmts, &scn.schema.id);
-    println!("retargeted: {:?}", p.verify(&s2, &scn.nonce));
+    // replay of a C11 BARE byte-change finding: VERIF_REPLAY=<file>
+    let f = std::env::var("VERIF_REPLAY").expect("VERIF_REPLAY");
+    let j: serde_json::Value = serde_json::from_str(&std::fs::read_to_string(f).unwrap()).unwrap();
+    let inp = &j["input"];
+    let schema = schema_from_value::<Bbs>(&inp["schema"]).ok().unwrap();
+    let nonce = unhex(inp["nonce"].as_str().unwrap());
+    let bare = unhex(inp["extra"]["bare"].as_str().unwrap());
+    let p: credx::presentation::Presentation<Bbs> = serde_bare::from_slice(&bare).unwrap();
+    println!("verify: {:?}", p.verify(&schema, &nonce).is_ok());
+    println!("disclosed: {:?}", p.disclosed_messages);
+    for (id, pr) in &p.proofs {
+        if let credx::presentation::PresentationProofs::Signature(sp) = pr {
+            println!("{} inner: {:?}", id, sp.disclosed_messages.iter().map(|(i, s)| (i, sc_hex(s))).collect::<Vec<_>>());
+        }
+    }
+    for (_, dm) in &p.disclosed_messages {
+        for (l, c) in dm {
+            println!("{} -> scalar {} bytes {:?}", l, sc_hex(&c.to_scalar()), c.to_bytes());
+        }
+    }
 }
